@@ -87,6 +87,12 @@ CHECKS["C09"] = dict(
     note="Trusts TLC and the canonical rendering; printed form is compared as a set of pairs.",
     design="§5 C09")
 
+CHECKS["C13"] = dict(
+    technique="TLA+ spec PanEither (k-step Either machine: steps run only while no failure, accessor table): TLC explores every chain of <= 3 steps over 10 step kinds, checks Stable and accessor consistency; every behaviour is replayed wrapped (all accessors) and plain in the real interpreter",
+    text="Bounded-exhaustive: calls made, captured error kind/message (= plain raise), skipping after the first failure, and val/err/A/or/val?/err?/catch/ignore/abandon for every chain; steps: methods returning value / nil / raising three error kinds, method with positional+keyword arguments, non-callable property, literal steps incl. one returning a caught error object.",
+    note="Trusts TLC and the interpreter's own rendering of receiver objects; three deviation classes of Wrappable._missing are recorded as known findings.",
+    design="§5 C13")
+
 NOT_YET = {}
 
 def main():
